@@ -28,7 +28,11 @@ Definition dispatch_file (toks : list (list N)) : option (list N * list N) :=
   | [op; k; norm; hdr; delim; threads; mem; writer; container; wrap; recs] =>
       if is "ofile" op then
         let rs := parse_hex_list recs in
-        Some (hex2 (m_ofile (parse_nat k) (flag norm) (flag hdr) (parse_hex delim) (cap_mem (parse_dec mem) rs) rs,
+        let mapped := is "mmap" writer || (is "auto" writer && flag norm) in
+        let small := (Nat.leb (parse_nat k) 4 && Nat.leb (List.length rs) 200)%bool in
+        Some (hex2 (if (mapped && small && flag norm)%bool
+                    then m_ofile_mapped (parse_nat k) (flag hdr) (parse_hex delim) rs
+                    else m_ofile (parse_nat k) (flag norm) (flag hdr) (parse_hex delim) (cap_mem (parse_dec mem) rs) rs,
                     s_ofile (parse_nat k) (flag norm) (flag hdr) (parse_hex delim) rs))
       else if is "cov" op then
         (* cov k bs bc norm delim threads flush container recs altrecs, positions renamed:
